@@ -215,7 +215,8 @@ def check_stats(case, result, rec, log, cap, scheme=None):
                     # mapped back from log space; the cap |value| is admitted only where the library documents it
                     # (log-space error not below |log value|), with a 1e-9 band around the switch
                     lv = abs(np.log(p.value)) if p.value > 0 else 0.0
-                    adm = ([p.value * (np.exp(e) - 1.0)] if e < lv * (1 + 1e-9) else []) + ([abs(p.value)] if e >= lv * (1 - 1e-9) else [])
+                    # (at the switch itself, e == |log value| - e.g. a zero error of a parameter equal to 1 - both are admitted)
+                    adm = ([p.value * (np.exp(e) - 1.0)] if e <= lv * (1 + 1e-9) else []) + ([abs(p.value)] if e >= lv * (1 - 1e-9) else [])
                 else:
                     adm = [e]
                 if not any(rel(float(p.standard_error), a) < 1e-9 or abs(float(p.standard_error) - a) < 1e-300 for a in adm):
